@@ -171,7 +171,7 @@ func TestWaitCondStep(t *testing.T) {
 				tr("w%d:start(%s)", w.id, kind)
 				check(false)
 			}
-			t.Repeat(map[string]func(*rapid.T){
+			t.Repeat(vkit.NoStarve(map[string]func(*rapid.T){
 				"start": func(t *rapid.T) {
 					if len(waiters) >= 5 {
 						t.Skip("enough")
@@ -224,7 +224,7 @@ func TestWaitCondStep(t *testing.T) {
 					tr("advance(%v)", d)
 					check(false)
 				},
-			})
+			}, nil))
 			// argument validation never blocks or panics
 			if err := bigbuff.WaitCond(context.Background(), nil, func() bool { return true }); err == nil {
 				fail("C05/nil-cond", "WaitCond(nil cond) returned nil")
